@@ -24,6 +24,7 @@ OUTSIDE = ("which instants a cron expression denotes (croniter trusted); real tz
 ASSUMPTIONS = [
     "datetime/timedelta modelled as integer microseconds (vlib.vdt) under CrossHair; shim validated against the repo's own tables in preflight; counterexamples replayed on the standard datetime",
     "(now-start).total_seconds()/period and math.floor modelled exactly (rationals) in CrossHair obligations; the IEEE-754 behaviour of that kernel is decided separately per interval by the C06.fp.* lemmas",
+    "croniter replaced by a stub yielding a symbolic strictly increasing candidate sequence; dt_util.as_local(x).astimezone(UTC) = x - offset(x) with one symbolic +-1h transition (time zone = piecewise-constant offset)",
     "sunrise/sunset come from the real astral location for lat 38 / lon -122 / America/Los_Angeles",
 ]
 
@@ -529,6 +530,21 @@ def obligations(tier):
             o.append(Obl(f"C06.meta.{i}.{dn}", __name__, "metamorphic", {"spec": i, "date": dn}, timeout=240, tier="quick" if dn == "tue" else "thorough",
                          desc=f"'{spec}': next(now) > now; next(t) == next(now) for all now <= t < next(now); next(next(now)) > next(now)",
                          sym=symx.format(date=DATES[dn]) + "; t in [x, 3 days) symbolic", twin=(dn == "tue")))
+    for name in RUN_SPECS:
+        for legacy in (False, True):
+            o.append(Obl(f"C06.run.{name}.{'legacy' if legacy else 'default'}", __name__, "run_loop", {"spec": name, "legacy": legacy, "maxend": 4500000 if tier == "quick" else 10500000}, timeout=600 if tier == "quick" else 1800,
+                         desc=f"@time_trigger({RUN_SPECS[name][0]}) on the virtual clock: one run per denoted instant with trigger_time equal to it, not more than 1us early, "
+                              "none after removal; startup/shutdown entries exactly once",
+                         sym="early wake-up of the first two (quick) / three (thorough) timers in [0, 2 ms] (microseconds, symbolic); observation end time in [0, 4.5 s] (quick) / [0, 10.5 s] symbolic",
+                         twin=(name == "period"),
+                         encodes=(("trigger.TrigInfo.trigger_watch",) if legacy else ("decorators.timing.TimeTriggerDecorator._cycle",)) + ("trigger.TrigTime.timer_trigger_next",)))
+    for order in ("cron_only", "cron_last", "cron_first"):
+        for dn in (["dst_end", "dst_start"] if tier == "quick" else ["dst_end", "dst_start", "tue", "dec31"]):
+            o.append(Obl(f"C06.cron.{order}.{dn}", __name__, "cron_next", {"order": order, "date": dn}, timeout=300, tier="quick" if dn.startswith("dst") else "thorough",
+                         desc="cron(): the chosen occurrence is the first croniter candidate with positive real (UTC) elapsed time; next_time_adj - now equals that elapsed time; "
+                              "in a list the minimum over specs wins and next_time_adj belongs to the winning spec",
+                         sym="now time-of-day x; three increasing cron candidates (gaps symbolic); one +-1h UTC-offset transition at a symbolic local instant within 3 days; direction bool",
+                         twin=(order == "cron_last" and dn == "dst_end"), encodes=("trigger.TrigTime.timer_trigger_next",)))
     bound = 86400 * 10**6 if tier == "quick" else 400 * 86400 * 10**6
     for per, tmo in ((90.0, 300), (300.0, 300), (420.0, 300), (3600.0, 200), (1800.0, 300), (5400.0, 300), (86400.0, 200), (604800.0, 200)):
         o.append(Obl(f"C06.fp.{per:g}s", __name__, "fp_lemma", {"period": per, "max_us": bound, "solver_timeout": tmo * (1 if tier == "quick" else 6)},
@@ -539,3 +555,134 @@ def obligations(tier):
                  desc="IEEE-754 evaluation of the period kernel equals the exact model for interval 0.1s", sym="x < 1 day (QF_BVFP, cvc5)",
                  known="C06.period_fp", classifier="classify_period_fp"))
     return o
+
+
+# ---------------------------------------------------------------------------------------------- cron(): DST-adjusted wait, lists
+class _FakeCron:
+    """croniter stand-in: get_next() yields the given strictly increasing candidates (all > now); is_valid() is True.
+    What a cron expression denotes is croniter's business (trusted); the property here is what pyscript does with the sequence."""
+    seq = []; seen = []
+    def __init__(self, expr, start, ret_type=None):
+        _FakeCron.seen.append((expr, start)); self.i = 0
+    def get_next(self, *a):
+        v = _FakeCron.seq[self.i]; self.i += 1
+        return v
+    @staticmethod
+    def is_valid(expr): return True
+    @staticmethod
+    def match(expr, now): return True
+
+
+def cron_next(x: int, c1: int, g2: int, g3: int, tr: int, fwd: bool, o1: int) -> bool:
+    """
+    pre: 0 <= x < DAY and 0 < c1 <= 2 * DAY and 0 < g2 <= 7200000000 and 0 < g3 <= DAY and 0 <= tr < 3 * DAY and 0 <= o1 <= 2 * DAY
+    post: _
+    """
+    # now = D + x; cron candidates now+c1 < +g2 < +g3 (local wall-clock instants); one UTC-offset transition at local instant D + tr:
+    # offset jumps by +1h (fwd, spring) or -1h (autumn).  A once() instant at now + o1 competes (o1 == 0: no once spec).
+    from custom_components.pyscript import trigger
+    today = DATES[P("date")]; D = ord2us(today); now = D + x
+    order = P("order")           # "cron_last" | "cron_first" | "cron_only"
+    H = 3600 * 10**6
+    cands = [now + c1, now + c1 + g2, now + c1 + g2 + g3, now + c1 + g2 + g3 + 10 * DAY]
+    def off(us):                 # UTC offset (microseconds) of a local wall-clock instant
+        if fwd: return (-8 * H) if us < D + tr else (-7 * H)
+        return (-7 * H) if us < D + tr else (-8 * H)
+    with TimeEnv() as te:
+        mk = te.mk
+        class _Loc:
+            def __init__(s, v): s.v = v
+            def astimezone(s, tz): return s.v - _td(off(te.us(s.v)))
+        def _td(us): return vdt.timedelta._mk(us) if te.sym else rdt.timedelta(microseconds=us)
+        class _DtUtil:
+            UTC = "UTC"
+            @staticmethod
+            def as_local(v): return _Loc(v)
+        saved = (trigger.croniter, trigger.dt_util)
+        trigger.croniter = _FakeCron; trigger.dt_util = _DtUtil
+        _FakeCron.seq = [mk(c) for c in cands]; _FakeCron.seen = []
+        try:
+            once_t = None
+            specs = ["cron(5 4 * * *)"]
+            if order != "cron_only":
+                # a fixed-date once() whose instant is D + 12:00 + o1-dependent? keep it simple: the competing instant is an explicit date/time literal
+                once_t = D + 43200 * 10**6
+                ospec = "once(%d/%d/%d 12:00)" % (today.year, today.month, today.day)
+                specs = [ospec] + specs if order == "cron_last" else specs + [ospec]
+            got, adj = te.next(specs, now, STARTUP_US)
+        finally:
+            trigger.croniter, trigger.dt_util = saved
+    # oracle: first candidate with positive real elapsed time
+    chosen = None; delta = None
+    for c in cands:
+        d = (c - off(c)) - (now - off(now))
+        if d > 0:
+            chosen = c; delta = d; break
+    exp_t, exp_adj = chosen, now + delta
+    if once_t is not None and once_t > now and once_t < chosen:
+        exp_t, exp_adj = once_t, once_t
+    if not symbolic_mode():
+        detail(specs=specs, now=str(us2real(now)), got=str(got and us2real(got)), adj=str(adj and us2real(adj)), exp=str(us2real(exp_t)), exp_adj=str(us2real(exp_adj)))
+    if once_t is not None and once_t == chosen:
+        # same instant denoted by both specs: either spec's wait is acceptable (the loops re-check the wall clock after waking)
+        return verdict(got == exp_t and (adj == exp_adj or adj == once_t), True)
+    return verdict(got == exp_t and adj == exp_adj, True)
+
+
+# ---------------------------------------------------------------------------------------------- layer 3: the run loops on the virtual clock
+RUN_SPECS = {
+    # name: (decorator arguments, expected instants as microseconds after start [start = 12:00:00], startup run?, shutdown run?)
+    "period": ('"period(now + 1s, 2s)"', [1, 3, 5, 7, 9], False, False),
+    "once2": ('"once(12:00:02)", "once(12:00:04.5)"', [2, 4.5], False, False),
+    "period_end": ('"period(12:00:01, 1.5s, 12:00:05)"', [1, 2.5, 4], False, False),
+    "startup_once": ('"startup", "once(12:00:03)"', [3], True, False),
+    "shutdown": ('"shutdown", "once(12:00:02)"', [2], False, True),
+}
+RUN_SRC = '''
+calls = []
+@time_trigger(%s)
+def g(**kw):
+    global calls
+    calls += [(T(), kw["trigger_type"], TT(kw["trigger_time"]))]
+'''
+
+
+def run_loop(e1: int, e2: int, e3: int, end: int) -> bool:
+    """
+    pre: 0 <= e1 <= 2000 and 0 <= e2 <= 2000 and 0 <= e3 <= 2000 and 0 <= end <= P("maxend")
+    post: _
+    """
+    if P("maxend") < 6000000:
+        e3 = 0
+    # timers may fire up to 2 ms early (e1..e3 for the first three sleeps): the function still runs exactly once per denoted instant,
+    # labelled with that instant, never more than 1 us before it; startup/shutdown entries run exactly once at start/stop
+    from vlib.world import mkworld, T0, SEC, BASE_DATE
+    args, inst, st, sh = RUN_SPECS[P("spec")]
+    w = mkworld(P("legacy"))
+    try:
+        early = [e1, e2, e3]
+        w.env.early = lambda: early.pop(0) if early else 0
+        base = w.env.dt_now()
+        def TT(x):
+            if isinstance(x, str): return x
+            return (x.us - base.us) if hasattr(x, "us") else (x - base) // rdt.timedelta(microseconds=1)
+        g = w.load("file.x", RUN_SRC % args, extra={"T": lambda: w.env.t, "TT": TT})
+        w.advance(end)
+        calls = list(g.global_sym_table["calls"])
+        from vlib.base import GlobalContextMgr
+        GlobalContextMgr.delete("file.x"); w.settle()
+        w.advance(end + 3 * SEC)
+        after = list(g.global_sym_table["calls"])
+    finally:
+        w.close()
+    exp = [int(i * SEC) for i in inst if int(i * SEC) <= end]
+    timed = [c for c in calls if c[2] not in ("startup", "shutdown")]
+    ok = [c[2] for c in timed] == exp and all(c[1] == "time" for c in calls)
+    ok = ok and all(c[0] >= c[2] - 1 and c[0] <= c[2] + 2000 for c in timed)
+    ok = ok and [c for c in calls if c[2] == "startup"] == ([(0, "time", "startup")] if st else [])
+    ok = ok and not [c for c in calls if c[2] == "shutdown"]
+    extra = after[len(calls):]
+    ok = ok and [c[2] for c in extra] == (["shutdown"] if sh else [])       # nothing runs after removal, except the shutdown entry, once
+    if not symbolic_mode():
+        detail(calls=calls, after_removal=extra, expected=exp)
+    return verdict(ok, len(timed) > 0)
